@@ -184,6 +184,7 @@ pub struct Agg {
     pub max_in_flight: u64,
     pub max_items: u64,
     pub placements_checked: u64,
+    pub cases: u64,
     pub probes: BTreeMap<String, u64>,
     pub faults: BTreeMap<String, u64>,
     pub states: BTreeSet<u64>,
@@ -220,6 +221,7 @@ impl Agg {
         self.max_in_flight = self.max_in_flight.max(s.max_in_flight);
         self.max_items = self.max_items.max(s.max_items);
         self.placements_checked += s.placements_checked;
+        self.cases += s.cases;
         for (k, v) in &s.probes {
             *self.probes.entry(k.clone()).or_insert(0) += v;
         }
@@ -613,7 +615,8 @@ pub fn finish_check(
         "wall_s": wall,
         "violations": new_violations,
         "coverage": {
-            "evaluations": agg.evaluations,
+            "evaluations": if agg.cases > 0 { agg.cases } else { agg.evaluations },
+            "simulated_runs": agg.evaluations,
             "distinct_nontrivial": distinct,
             "rule": rule,
             "samples": samples,
